@@ -204,6 +204,17 @@ void make_items(const Options& o, std::vector<Item>& items)
                 // quick: the two-op thread releases one kind of access and takes the other
                 return mixed(p) && is_shared_op(p.threads[0][0].code) != is_shared_op(p.threads[0][1].code);
             });
+        if (thorough) {
+            // four threads x 1 op over a reduced alphabet (blocking / try / timed forms of both sides, queued writes)
+            std::vector<OpI> al4;
+            for (int c : {X_LOCK, X_TRY_FOR, STORE, MOD_DETACH, S_LOCK, S_TRY, S_TRY_FOR, READ})
+                if (in.has(c)) al4.push_back(OpI{(uint8_t)c, (c == STORE || c == MOD_DETACH) ? -1 : 0});
+            gen(o, items, ii, al4, {1, 1, 1, 1}, 2, 2, [&](const Prog& p) {
+                int sh = 0;
+                for (auto& t : p.threads) sh += is_shared_op(t[0].code);
+                return sh >= 1 && sh <= 3;
+            });
+        }
         if (in.shared_capable) {
             // sharing: two readers meet inside their shared sections; must terminate
             std::vector<int> forms;
@@ -256,6 +267,7 @@ void make_items(const Options& o, std::vector<Item>& items)
         if (thorough) gen(o, items, ii, al, {2, 1}, 3, 3, any);
         else if (al.size() <= 8) gen(o, items, ii, al, {2, 1}, 3, 3, reduced);
         if (thorough && al.size() <= 8) gen(o, items, ii, al, {2, 2}, 2, 2, any);
+        if (thorough && al.size() <= 8) gen(o, items, ii, al, {1, 1, 1, 1}, 2, 2, any);
 #endif
     }
 }
